@@ -89,10 +89,9 @@ def run(R):
         R.coverage.update({"traces_validated_against_impl": total, "input_distribution": dist,
                            "violating_cases_by_signature": dict(seen)})
     # a broken proof / translator / correspondence: widen the search for a concrete failing input
-    if R.broken and not [v for v in R.violations]:
-        pass
-    if R.broken:
-        known_only = True
+    import vlib
+    known = {f["sig"] for f in vlib.known_findings()["finding"] if f["property"] == R.pid}
+    if R.broken and not [v for v in R.violations if v["sig"] not in known]:
         for s in range(100, 103):
             o2 = observe(R, 600, seed=R.seed + s, nopoll=True)
             if o2:
